@@ -116,7 +116,9 @@ def run(case):
         if flags:
             out.append(["flags"] + sorted(set(flags)))
         return out
-    if k in ("parse_d", "parse_t"):
+    if k in ("parse_d", "parse_t", "parsemut_d", "parsemut_t"):
+        mut = k.startswith("parsemut")
+        k = "parse_d" if k.endswith("_d") else "parse_t"
         cls = cp.abc.Duration if k == "parse_d" else cp.abc.Tempo
         p = case[1]
         t = p[0]
@@ -152,6 +154,19 @@ def run(case):
             raise ValueError(p)
         try:
             r = cls.from_any(obj)
+            if mut and same is None:
+                # parse, update the result in place, parse the same input again: the second result must be the parsed
+                # value again and a different object
+                first = r
+                if isinstance(first, cp.abc.Duration):
+                    first.add(0.5)
+                elif isinstance(first, cp.FlexTempo):
+                    first[0].tempo.bpm = first[0].tempo.bpm + 7
+                else:
+                    first.bpm = first.bpm + 7
+                r = cls.from_any(obj)
+                if r is first:
+                    return ["ok", "second-parse-returns-the-first-result-object"]
         except Exception as e:  # noqa
             return err(e)
         if same is not None:
